@@ -269,9 +269,10 @@ PhTiles == LET g == PhSegs(m.style, s) IN
            /\ \A i \in 1..Len(g) : g[i].t = "literal" => g[i].out = Chars(s, g[i].a + 1, g[i].b)
 
 (* ============================== C08, Jinja skeletons and the fast path ============================== *)
-JjKinds == {"LIT", "NL", "HASH", "VT", "VE", "VW", "IFT", "IFF", "ELIF", "ELSE", "ENDIF", "FOR", "ENDFOR",
+JjKinds == {"LIT", "NL", "HASH", "BRC", "DLR", "VT", "VE", "VW", "IFT", "IFF", "ELIF", "ELSE", "ENDIF", "FOR", "ENDFOR",
             "SET", "SETB", "CMT", "WIF", "WENDIF", "WV", "RAW", "MAC", "DO"}
-Marker(k) == k \notin {"LIT", "NL", "HASH"}         \* the fragment's text contains {{ or {% or {#
+\* BRC / DLR are SQL text with ordinary braces ('{"k": 1}', ${x}): a brace that is not followed by { % # is no marker
+Marker(k) == k \notin {"LIT", "NL", "HASH", "BRC", "DLR"}      \* the fragment's text contains {{ or {% or {#
 Top(st)   == IF st = <<>> THEN "none" ELSE Last(st)
 Pop(st)   == SubSeq(st, 1, Len(st) - 1)
 JjEnabled(st, k) == CASE k \in {"ELIF", "ELSE"}      -> Top(st) = "if"
